@@ -66,7 +66,7 @@ class C13(Campaign):
     def scenario(self, rnd, tier):
         k = gen.knobs(p_validator=0.1, listeners=(0, 1), rtc=[True, True, False], allow=[False, False, True],
                       async_modes=["none", "none", "none", "all", "mixed"], drivers=["sync"], p_unknown_event=0.08,
-                      p_ret=0.6, p_call_style=0.0, p_from_any=0.25, p_event_obj=0.3, p_event_decl=0.25, p_decl_style=0.2, p_or_group=0.2, p_devent=0.2)
+                      p_ret=0.6, p_call_style=0.0, p_from_any=0.25, p_event_obj=0.3, p_event_decl=0.25, p_decl_style=0.2, p_or_group=0.2, p_devent=0.2, p_multi_source=0.2)
         sc = gen.gen_scenario(rnd, k, profile="C13")
         prog = sc["programs"][0]
         is_async = any(m.get("async") for m in prog["cbs"].values())
